@@ -291,6 +291,8 @@ impl Memory {
             values.extend(more.into_iter().map(|s| s.data));
         });
 
+        #[cfg(smlxl_storage_layout_extractor_verif)]
+        crate::verif_hooks::order("vm.memory.export", &mut values);
         values
     }
 }
